@@ -36,7 +36,7 @@ def case_json(m, sym_i, with_dda):
         recs = []
         for i in range(m):
             symbolic = i == sym_i
-            _, g = C12.make_record(eng, i, symbolic, 0, 0, with_dda)
+            _, g = C12.make_record(eng, i, symbolic, 0, 0, C12.dda_at(with_dda, i))
             recs.append(g)
 
         def cex(mm):
@@ -191,8 +191,9 @@ def layouts(tier):
 
 def cases(tier):
     cs = [(case_json, 'JSON: empty list', dict(m=0, sym_i=None, with_dda=False))]
-    for m, i, d in ([(1, 0, True), (2, 1, False), (3, 0, True), (3, 2, False)] if tier != 'thorough' else
-                    [(m, i, d) for m in (1, 2, 3) for i in range(m) for d in (True, False)]):
+    for m, i, d in ([(1, 0, True), (2, 1, False), (3, 0, True), (3, 2, False), (2, 1, 'YN'), (3, 1, 'NYN'), (3, 2, 'YNY')] if tier != 'thorough' else
+                    [(m, i, d) for m in (1, 2, 3) for i in range(m) for d in (True, False)] + [(2, 0, 'YN'), (2, 1, 'YN'), (2, 0, 'NY'), (3, 1, 'NYN'),
+                                                                                               (3, 2, 'YNY'), (3, 0, 'YNN'), (3, 2, 'YYN')]):
         cs.append((case_json, f'JSON: {m} boards, board {i} symbolic, dda={d}', dict(m=m, sym_i=i, with_dda=d)))
     for j, lay in enumerate(layouts(tier)):
         n = 1 + j % 3
